@@ -26,10 +26,12 @@ def backtesting_log_mode(dispatcher):
     old_factory = logging.getLogRecordFactory()
 
     def record_factory(*args, **kwargs):
-        record_dt = dispatcher.now()
         record = old_factory(*args, **kwargs)
-        record.created = dt.to_utc_timestamp(record_dt)
-        record.msecs = int(record_dt.microsecond / 1000)
+        # There is no simulated time until the first event gets processed. Records created before that keep the wall clock.
+        if dispatcher.now_available:
+            record_dt = dispatcher.now()
+            record.created = dt.to_utc_timestamp(record_dt)
+            record.msecs = int(record_dt.microsecond / 1000)
         return record
 
     logging.setLogRecordFactory(record_factory)
